@@ -164,6 +164,9 @@ func dmlSQL(target, kind string, arg int) string {
 		return fmt.Sprintf("DELETE FROM %s WHERE v = %d;", target, arg)
 	case "incr":
 		return fmt.Sprintf("UPDATE %s SET v = v + 1;", target)
+	case "incrfail":
+		// fails at the first row holding arg — after the rows in front of it were already assigned
+		return fmt.Sprintf("UPDATE %s SET v = CASE WHEN v = %d THEN 1 / (v - v) ELSE v + 1 END;", target, arg)
 	}
 	return fmt.Sprintf("UPDATE %s SET v = 1 / (v - v);", target)
 }
@@ -278,7 +281,7 @@ func oneHistory(g *hc.Gen, o *hc.Out, scratch, bin string, h int) {
 				}
 			}
 			var line, sql, got string
-			kinds := []string{"append", "delwhere", "incr", "append", "fail"}
+			kinds := []string{"append", "delwhere", "incr", "append", "fail", "incrfail"}
 			switch c := g.Intn(20); {
 			case c < 5:
 				pickFile(true)
